@@ -541,6 +541,7 @@ impl ErasedNode for Node {
     // Used for `set_freeze`, `add_observers`
     fn became_necessary_propagate(&self, state: &State) {
         self.became_necessary(state);
+        state.raise_rhs_nodes_of_reconnected_binds();
         state.propagate_invalidity();
     }
 
@@ -580,10 +581,16 @@ impl ErasedNode for Node {
                 .iter()
                 .filter_map(Weak::upgrade)
                 .collect();
+            /* Not right here, though: we may be half-way through linking a new parent whose own
+            height has not been worked out yet (adjust_heights assumes every parent is at least as
+            high as it was left). Note the pairs down; whoever started making nodes necessary
+            (state_add_parent, or the linking of a new observer) raises them when it is done. */
             for rnode in rnodes {
                 if rnode.is_necessary() && rnode.height() <= self.height() {
-                    let mut ah_heap = state.adjust_heights_heap.borrow_mut();
-                    ah_heap.adjust_heights(&state.recompute_heap, self.packed(), rnode);
+                    state
+                        .rhs_nodes_to_raise
+                        .borrow_mut()
+                        .push((self.weak(), rnode.weak()));
                 }
             }
         }
@@ -1489,6 +1496,7 @@ impl ErasedNode for Node {
             let rch = &state.recompute_heap;
             ah_heap.adjust_heights(rch, self.packed(), parent.packed());
         }
+        state.raise_rhs_nodes_of_reconnected_binds();
         state.propagate_invalidity();
         /* we only add necessary parents */
         debug_assert!(parent.is_necessary());
